@@ -11,6 +11,7 @@ TEETH = [
     ("MC_Publish_teeth_pubfirst.cfg", "VisibleImpliesComplete", "bestSummary published before the block bulk"),
     ("MC_Publish_teeth_simcommit.cfg", "QueriesAreReadOnly", "a call simulation commits its private state"),
     ("MC_Publish_teeth_noaccepts.cfg", "FinalizedMonotonePerReader", "importer without bft.Accepts"),
+    ("MC_Publish_teeth_nexttwoloads.cfg", "NextIsOneSnapshot", "revision next takes its state from a second load of best"),
     ("MC_Publish_vacuity.cfg", "NeverReorgObserved", "vacuity probe: a reader holds the replaced branch while finality moved"),
     ("MC_Publish_vacuity2.cfg", "NeverObservedMidImport", "vacuity probe: a reader holds a block while the next is mid-import"),
 ]
@@ -20,6 +21,8 @@ def design_level(ctx):
     q = ctx.quick
     ctx.tlc_must_hold("store", "MC_Publish", cfg="MC_Publish_quick.cfg" if q else "MC_Publish_thorough.cfg", workers=4,
                       timeout=300 if q else 1800, label="1 importer x %d readers, reorg + epoch boundary + finalization" % (2 if q else 3))
+    ctx.tlc_must_hold("store", "MC_Publish", cfg="MC_Publish_next.cfg", workers=4, timeout=600,
+                      label="2 readers that also issue revision-next requests (header and state from one capture)")
     if not q:
         ctx.tlc_must_hold("store", "MC_Publish", cfg="MC_Publish_quick.cfg", workers=4, timeout=300, label="2 readers")
         ctx.tlc_must_hold("store", "MC_Publish", cfg="MC_Publish_cachelate.cfg", workers=4, timeout=300,
@@ -34,7 +37,7 @@ def design_level(ctx):
     ctx.cov["spec_teeth"] = shown
 
 
-def record(ctx, binp, label, seed, streams, runs, blocks, traceruns=0, tracecap=40, readers=7, batch=400, timeout=1800, propose=4):
+def record(ctx, binp, label, seed, streams, runs, blocks, traceruns=0, tracecap=40, readers=8, batch=400, timeout=1800, propose=4):
     out = ctx.tmp("rec-" + label)
     argv = [binp, "-out", out, "-seed", str(seed), "-streams", str(streams), "-runs", str(runs), "-blocks", str(blocks),
             "-traceruns", str(traceruns), "-tracecap", str(tracecap), "-readers", str(readers), "-batch", str(batch),
@@ -180,6 +183,11 @@ def binding_demo(ctx, binp):
         v = [dict(e) for e in run]
         v[rds[len(rds) // 2]]["ok"] = False
         variants["read-reported-as-failed"] = v
+    nx = [i for i, e in enumerate(run) if e["e"] == "RD" and e["k"] == "next" and e["ok"]]
+    if nx:
+        v = [dict(e) for e in run]
+        v[nx[len(nx) // 2]]["ok"] = False
+        variants["next-revision-reported-torn"] = v
     # (d) the block bulk of a best block deleted
     bi = sorted(blks.values())
     if bi:
